@@ -92,7 +92,7 @@ def run_ids(tier, w, vh):
 
 
 
-HIST_CLAUSES = ["AliasesIntact", "ReleasedAliases", "ReleasedName", "ReleasedEvents", "NoRelationOfDead"]
+HIST_CLAUSES = ["AliasesIntact", "OwnerKeeps", "ReleasedAliases", "ReleasedName", "ReleasedEvents", "NoRelationOfDead"]
 
 
 def hist_cases(tier, rng):
@@ -114,7 +114,9 @@ def hist_cases(tier, rng):
         H([("link", 0), ("monitor", 1), ("link", 1), ("monitor", 0)], ex)
         H([("name", 1), ("unname", 0), ("name", 2), ("alias", 0), ("event", 1)], ex)
         H([("monitor", 0), ("demonitor", 0), ("monitor", 0), ("link", 2)], ex)
-    ops = ["alias", "alias", "delalias", "name", "unname", "event", "unevent", "link", "unlink", "monitor", "demonitor"]
+        H([("name", 1), ("event", 1), ("event", 2), ("rival", 0), ("alias", 0), ("rival", 1)], ex)
+        H([("event", 1), ("rival", 1), ("unevent", 1), ("event", 1), ("name", 2), ("rival", 0)], ex)
+    ops = ["alias", "alias", "delalias", "name", "unname", "event", "unevent", "link", "unlink", "monitor", "demonitor", "rival"]
     for _ in range(60 if tier == "quick" else 1500):
         H([(rng.choice(ops), rng.randint(0, 4)) for _ in range(rng.randint(2, 12))], rng.choice(exits))
     return hs
